@@ -94,12 +94,13 @@ def loader(ka: int, kb: int, kc: int, oa: int, ob: int, oc: int, aa: int, ab: in
 ROLES = ["resource", "decorate", "log", "create_span", "close", "metric", "shutdown"]
 
 
-def isolation(role: int, who: int, hits: int) -> str:
+def isolation(role: int, who: int, hits: int, fm: int = 0) -> str:
     """
     Two plugins of every role; plugin `who` (0 first / 1 second / 2 both) fails in callback `role` on every call: the agent
     still starts, the healthy plugin's callbacks still run with the right arguments, the snapshot is delivered with the
     remaining decorations, spans of healthy processors are still closed, every plugin's shutdown is attempted.
-    PRE: 0 <= role <= 6 and 0 <= who <= 2 and 1 <= hits <= 2
+    PRE: 0 <= role <= 6 and 0 <= who <= 2 and 1 <= hits <= 2 and 0 <= fm <= 2
+    PRE: fm == 0 or role in (0, 1)
     POST: _ == ""
     """
     world.begin_path()
@@ -107,7 +108,7 @@ def isolation(role: int, who: int, hits: int) -> str:
     from deep.api.deep import Deep
     from deep.api.tracepoint.trigger import build_trigger
     from deep.api.tracepoint.tracepoint_config import MetricDefinition
-    role, who, hits = [world.realize(x) for x in (role, who, hits)]
+    role, who, hits, fm = [world.realize(x) for x in (role, who, hits, fm)]
     P = plugins()
     logs = [[], []]
     sets = []
@@ -127,10 +128,17 @@ def isolation(role: int, who: int, hits: int) -> str:
     for i in range(2):
         st = sets[i]
         f = i in bad
+        # fm 0: the callback raises; 1 / 2: it answers with something of the wrong kind (a dict / a string) instead
         if f and ROLES[role] == "resource":
-            st["res"].fail = err
+            if fm == 0:
+                st["res"].fail = err
+            else:
+                st["res"].garbage = {"team": "payments"} if fm == 1 else "payments"
         if f and ROLES[role] == "decorate":
-            st["dec"].fail = err
+            if fm == 0:
+                st["dec"].fail = err
+            else:
+                st["dec"].garbage = {"team": "payments"} if fm == 1 else "payments"
         if f and ROLES[role] == "log":
             st["log"].fail = err
         if f and ROLES[role] == "create_span":
@@ -271,5 +279,5 @@ CONDITIONS = [
          bounds="3 custom plugins x {importable, not importable, constructor raises} x 8 activation settings incl. bools given in code, on which is_active() itself fails (2 plugins) x UNBOUNDED symbolic order values"),
     dict(fn="isolation", cubes=["role == %d and who == %d" % (r, w) for r in range(7) for w in range(3)],
          twins=["reach", "mutant:decorators_unguarded@role == 1 and who == 0"],
-         bounds="7 callback roles x failing plugin first/second/both x 1-2 hits; 2 plugins of each of 5 plugin types"),
+         bounds="7 callback roles x failing plugin first/second/both x 1-2 hits; 2 plugins of each of 5 plugin types; resource providers / decorators fail by raising or by answering with a dict / a string"),
 ]
